@@ -456,3 +456,32 @@ M("X-OPERANDS-V-named-fresh-map", "C14", [(S, """            let field_value = s
 M("C02-R3-V-op-from-two-arms", "C02", [(O, """"=" | "==" | "eq" => Some(Op::Eq),""", """"=" | "==" => Some(Op::Eq),
             "eq" => Some(Op::Eq),""")], kind="variant")
 M("X-NAMES-column-alias-is-function", "C16", [("src/field.rs", """"mp3_year" => Ok(Field::Year),""", """"mp3_year" | "year" => Ok(Field::Year),""")], ["names_overlap"])
+
+# ---------------------------------------------------------------- variants pinning the rules of the eighth seed wave
+M("X-CANON-V-match-with-guard", "C18", [(U, """    match canonicalize(path_buf) {
+        Ok(path) => Ok(format_absolute_path(&path)),
+        Err(err) => match err.to_string().starts_with("Incorrect function.") {
+            true => Ok(format_absolute_path(path_buf)),
+            _ => Err(err.to_string()),
+        },
+    }""", """    match canonicalize(path_buf) {
+        Ok(resolved) => Ok(format_absolute_path(&resolved)),
+        Err(err) if err.to_string().starts_with("Incorrect function.") => Ok(format_absolute_path(path_buf)),
+        Err(err) => Err(err.to_string()),
+    }""")], kind="variant")
+M("C20-R6-V-renamed-parameter", "C20", [("src/ignore/hg.rs", """fn update_hgignore_filters(hgignore_filters: &mut Vec<HgignoreFilter>, path: &Path) {
+    let hgignore_file = path.join(".hgignore");
+    if hgignore_file.is_file() {
+        let mut regexes = parse_hgignore(&hgignore_file, &path);""", """fn update_hgignore_filters(hgignore_filters: &mut Vec<HgignoreFilter>, repo_dir: &Path) {
+    let path = repo_dir;
+    let ignore_file = repo_dir.join(".hgignore");
+    let hgignore_file = ignore_file;
+    if hgignore_file.is_file() {
+        let mut regexes = parse_hgignore(&hgignore_file, repo_dir);""")], kind="variant")
+M("X-CONFIG-default-first", "C04", [(S, """            self.config
+                .is_audio
+                .as_ref()
+                .unwrap_or(self.default_config.is_audio.as_ref().unwrap()),""", """            self.default_config
+                .is_audio
+                .as_ref()
+                .unwrap_or(self.config.is_audio.as_ref().unwrap()),""")], ["config-precedence"])
